@@ -597,7 +597,10 @@ func (w *vfWorld) clientOracles(st vfStep, user, home string, tr *vfClientTransp
 	}
 	w.res.Probes["client-wire-bytes"] += len(wire)
 	// (2) the agent holds exactly one certificate per label
-	if w.agentSim.mode == "present" || w.agentSim.mode == "refuse-lifetime" {
+	// (the keyring itself is asked, not the agent's protocol face: whatever the agent refuses or fails to list in this
+	// run, what it holds must not contain duplicates)
+	{
+		mustHold := w.agentSim.mode == "present" || w.agentSim.mode == "refuse-lifetime"
 		if keys, err := w.agentSim.keyring.List(); err == nil {
 			seen := map[string]int{}
 			slotLabels := map[string][]string{}
@@ -624,7 +627,7 @@ func (w *vfWorld) clientOracles(st vfStep, user, home string, tr *vfClientTransp
 					w.violate("C19", "duplicate-in-agent", "duplicate-in-agent", fmt.Sprintf("the agent holds %d certificates with label %q", n, c))
 				}
 			}
-			if runErr == nil && len(seen) == 0 {
+			if mustHold && runErr == nil && len(seen) == 0 {
 				w.violate("C19", "not-installed", "not-installed:agent", "the client run succeeded but no certificate reached the agent")
 			}
 		}
@@ -669,7 +672,11 @@ func genClientPlan(r *rand.Rand, tier string) *vfPlan {
 		Target: pick(r, []string{"", "", "foreign"}), L: pick(r, [][]string{nil, nil, {"replica"}, {fmt.Sprintf("diskfull:%d", 1+r.IntN(7))}, {fmt.Sprintf("loglevel:%d", pick(r, []int{1, 3, 5, 10}))}, {"stray-agent"}})})
 	if chance(r, 0.3) {
 		add(vfStep{Op: "advance", D: pick(r, []string{"31s", "1h"})})
-		add(vfStep{Op: "client_run", User: user, A: pick(r, []string{"rsa", "p256", "p384"}), B: pick(r, []string{"present", "absent", "refuse-all"}), N: 1, Target: pick(r, []string{"", "foreign"}), L: pick(r, [][]string{nil, nil, {"stray-agent"}})})
+		kt := pick(r, []string{"rsa", "p256", "p384"})
+		if chance(r, 0.6) {
+			kt = p.Steps[len(p.Steps)-2].A // the same kind of key as before: the earlier certificate has to make room
+		}
+		add(vfStep{Op: "client_run", User: user, A: kt, B: pick(r, []string{"present", "absent", "refuse-all", "list-error", "list-error"}), N: 1, Target: pick(r, []string{"", "foreign"}), L: pick(r, [][]string{nil, nil, {"stray-agent"}})})
 	}
 	return p
 }
